@@ -843,10 +843,8 @@ theorem b_tdBase (w : World) (i : Nat) (s : Sess) : BStep w (tdBase w i s) := by
 theorem b_teardown (w : World) (i : Nat) (s : Sess) : BStep w (teardown w i s).1 := by
   rw [teardown_eq]
   split
+  · exact (b_tdBase w i s).trans (b_sessDelete _ _ _)
   · exact b_tdBase w i s
-  · split
-    · exact b_tdBase w i s
-    · exact (b_tdBase w i s).trans (b_sessDelete _ _ _)
 
 theorem b_shutdown (w : World) (i : Nat) (sid : String) : BStep w (w.shutdownSession i sid) := by
   cases hs : (w.node i).sess sid with
